@@ -23,7 +23,7 @@ for name in sorted(os.listdir(os.path.join(V, 'seeded'))):
     sh('git -C /repo apply %s' % patch)
     t0 = time.time()
     try:
-        r = sh('cd %s && VERIF_JOB_TIMEOUT=900 ./check %s --tier quick' % (V, prop), timeout=3000)
+        r = sh('cd %s && VERIF_NO_EVIDENCE=1 VERIF_JOB_TIMEOUT=900 ./check %s --tier quick' % (V, prop), timeout=3000)
         lines = [l for l in r.stdout.splitlines() if l.startswith('VIOLATION')]
         res[name] = {'property': prop, 'exit': r.returncode, 'violations': len(lines), 'first': (lines[0].split('obligation=')[-1][:120] if lines else ''), 'wall_s': round(time.time() - t0)}
     except subprocess.TimeoutExpired:
